@@ -35,6 +35,8 @@ def val_of(tok: str):
     if tok == "n":
         return None
     kind, x = tok.split(":")
+    if kind == "y":
+        return f"y{x}".encode()  # a bytes payload: stored encoded (b"bytes:...") when a serializer is configured
     return int(x) if kind == "i" else f"t{x}"
 
 
@@ -49,6 +51,8 @@ def show_val(v) -> str:
         return f"i:{v}"
     if isinstance(v, str) and v.startswith("t") and v[1:].isdigit():
         return f"t:{v[1:]}"
+    if isinstance(v, bytes) and v.startswith(b"y") and v[1:].isdigit():
+        return f"y:{int(v[1:])}"
     return f"?{type(v).__name__}:{v!r}"
 
 
@@ -397,7 +401,7 @@ def execute(cfg: str, size: int, ops: list[str]):
 
 TTLS = ["-", "-", "0", "1", "4", "8", "8", "16", "80"]
 ADVS = [0, 1, 4, 7, 8, 8, 9, 16, 40, 160]
-VALS = ["i:-1", "i:0", "i:1", "i:2", "i:3", "t:0", "t:1", "t:2", "t:3", "n"]
+VALS = ["i:-1", "i:0", "i:1", "i:2", "i:3", "t:0", "t:1", "t:2", "t:3", "n", "y:0", "y:1"]
 
 
 # "phase-locked" alphabets for configurations with the purge task: every time advance is a multiple of the purge
